@@ -82,6 +82,7 @@ type run struct {
 	gh    map[uint64]*ghost
 	cross map[uint64]int // position id -> initialised-tick crossings since its last update
 	drift map[uint64]int // pool id -> preferred swap direction (denom in)
+	plan  map[uint64]string // pool id -> follow-up planned for the next step on that pool
 	step  int
 }
 
@@ -266,6 +267,7 @@ func Run(seed int64, n int, outDir string) error {
 		{"urise", "uusdc", "0.003", "1.0001", "0.5"},
 		{"uatom", "uosmo", "0.01", "1.001", "0"},
 		{"uusdc", "uatom", "0.05", "1.1", "0.25"},
+		{"uosmo", "urise", "0", "1.01", "0"}, // no swap fee: only incentives accrue
 	} {
 		if _, err := w.CreatePool(ps[0], ps[1], ps[2], ps[3], ps[4]); err != nil {
 			return err
@@ -273,7 +275,7 @@ func Run(seed int64, n int, outDir string) error {
 	}
 	st := emit.NewStats("C06", seed, "a case is non-trivial when a claim (Msg/ClaimRewards, or the collect inside decrease/increase) paid out > 0 after at least one swap crossed an initialised tick since that position's last update; distinct by pool, position, number of crossings and coins paid")
 	cf := &emit.CasesFile{Import: "Amm.C06Check", Runner: "run", Type: "c06_case"}
-	r := &run{w: w, cf: cf, st: st, gh: map[uint64]*ghost{}, cross: map[uint64]int{}, drift: map[uint64]int{}}
+	r := &run{w: w, cf: cf, st: st, gh: map[uint64]*ghost{}, cross: map[uint64]int{}, drift: map[uint64]int{}, plan: map[uint64]string{}}
 	for _, p := range w.Pools {
 		r.gh[p.ID] = newGhost()
 	}
@@ -304,8 +306,8 @@ func Run(seed int64, n int, outDir string) error {
 		if len(poss) == 0 {
 			continue
 		}
-		if len(poss) > 4 { // keep the quick tier small: the four oldest positions
-			poss = poss[:4]
+		if len(poss) > 3 { // keep the quick tier small: the three oldest positions
+			poss = poss[:3]
 		}
 		for order := 0; order < 2; order++ {
 			c, _ := ctx.CacheContext()
